@@ -19,7 +19,7 @@ from ..report import where_of
 from ..source import dotted_name, enclosing_stmt
 from ..sqlbind import binding_of, select_column_name
 from ..sqlmodel import walk_expr
-from ..units import UnitError, UnitEval, fmt, label_unit, unit_of_name
+from ..units import FlowUnits, UnitError, UnitEval, fmt, label_unit, unit_of_name
 
 ROLE_COLUMNS = {
     "zeta_mm": "level",
@@ -103,7 +103,7 @@ def strip_tolist(node):
             return node, rev
 
 
-def check_output_table(ctx, chk, rule, f, roles_of_name, what_measured):
+def check_output_table(ctx, chk, rule, f, roles_of_name, what_measured, extra_units=None):
     """Labels <-> zipped columns <-> units.  roles_of_name: name -> role."""
     ot = output_table(ctx, f)
     if ot is None:
@@ -132,13 +132,16 @@ def check_output_table(ctx, chk, rule, f, roles_of_name, what_measured):
                why="a column under the wrong header is read as a different quantity")
         lu = label_unit(lab)
         try:
-            eu = UnitEval().unit(core)
+            eu = FlowUnits(ctx, f, extra=extra_units).unit(core)
             if eu[0] == "const":
                 eu = None
         except UnitError as exc:
             eu = None
-        if lu is None or eu is None:
-            chk.indeterminate(rule, where_of(f, arg), "unit of label %r or of %s not determinable" % (lab, ast.unparse(core)))
+        if lu is None:
+            chk.indeterminate(rule, where_of(f, arg), "unit of label %r not determinable" % lab)
+        elif eu is None:
+            chk.info(rule, where_of(f, arg), "unit of %s not determinable from names, bindings or definitions" % ast.unparse(core),
+                     "label/unit agreement of column %d not decided" % i)
         else:
             chk.ob(rule, lu == eu, where_of(f, arg),
                    "column %d: label %r [%s] over %s [%s]" % (i, lab, fmt(lu), ast.unparse(core), fmt(eu)),
@@ -243,7 +246,12 @@ def run(ctx, chk, tier="quick"):
     if isinstance(cst, ast.Assign) and isinstance(cst.targets[0], ast.Name):
         roles[cst.targets[0].id] = "simulated"
     # ---------------- O4 output table
-    check_output_table(ctx, chk, "C17.O4", g, roles, "storage")
+    extra = {}
+    if isinstance(cst, ast.Assign) and isinstance(cst.targets[0], ast.Name):
+        u = unit_of_name(p[2])  # the curve has the unit of its requested mean
+        if u is not None:
+            extra[cst.targets[0].id] = u
+    check_output_table(ctx, chk, "C17.O4", g, roles, "storage", extra_units=extra)
     # observations-only vector is the simulated curve
     for wcall, marker, dump in vector_dumps(ctx, g):
         ok = False
